@@ -120,6 +120,13 @@ where
             Inst::Deliv(d) => d.handle(),
         }
     }
+    /// the instance's own front-end where it has one (`SignalsInfo::add_signal`), else its handle
+    fn add_signal(&self, n: c_int) -> Result<(), std::io::Error> {
+        match self {
+            Inst::Info(s) => s.add_signal(n),
+            Inst::Deliv(d) => d.handle().add_signal(n),
+        }
+    }
     fn pending(&mut self) -> Vec<c_int> {
         match self {
             Inst::Info(s) => s.pending().map(|x| x.sig()).collect(),
@@ -213,7 +220,8 @@ where
                     _ => handles.last().cloned(),
                 };
                 if let Some(h) = h {
-                    let (o, _) = outcome(std::panic::catch_unwind(std::panic::AssertUnwindSafe(|| h.add_signal(*n))));
+                    let via_instance = matches!(op, Op::Add(_));
+                    let (o, _) = outcome(std::panic::catch_unwind(std::panic::AssertUnwindSafe(|| if via_instance { inst.as_ref().unwrap().add_signal(*n) } else { h.add_signal(*n) })));
                     out = o.into();
                     if o == "ok" {
                         watched.insert(*n);
